@@ -1,22 +1,29 @@
 // Package c02: correspondence harness + direct oracle for C02 (skyway oracle safety).
 //
-// Drives the REAL skyway keeper of keeper.SetupFiveValChain: claims go through ValidateBasic and
-// msgServer.SendToPalomaClaim inside a tx-like cache context; the end-blocker steps
-// attestationTally / pruneAttestations run through the verif hooks on the block context (the
-// end-blocker has no cache context); UpdateValidatorNoncesToLatest is the keeper method;
-// governance resets go through msgServer.OverrideNonceProposal; chain activation is the real
-// eventbus event the EVM keeper publishes; powers are written into the real staking store
-// (SetLastValidatorPower / SetLastTotalPower), which is what TryAttestation reads.
+// Drives the REAL skyway keeper of keeper.SetupFiveValChain with THREE remote chains registered in
+// the EVM keeper ("test-chain", "test-chain-2" — one id a prefix of the other —, "evm-c"), each with
+// its own bridge token and (two of them) a registered light-node sale contract.  Claims of all three
+// types go through ValidateBasic and their msg server inside a tx-like cache context; the
+// end-blocker steps attestationTally / pruneAttestations run through the verif hooks on the block
+// context; UpdateValidatorNoncesToLatest is the keeper method; governance resets go through
+// msgServer.OverrideNonceProposal; chain activation is the real eventbus event the EVM keeper
+// publishes; powers are written into the real staking store and validator records are rewritten
+// (Bonded / Unbonding / Unbonded, jailed flag) or removed in the real staking keeper; pending
+// batches are real ones (SendToRemote + BuildOutgoingTXBatch, CancelOutgoingTXBatch); a genesis
+// round trip is ExportGenesis, wiping the module's store, InitGenesis.
 //
-// After every operation the projected state of the real stores is recorded for the Coq model
-// (Corr/C02.v) and the property's direct oracle is evaluated on the real state, independently of
-// the model.
+// After every operation the projected state of the addressed chain's real stores is recorded for
+// the Coq model (Corr/C02.v) and the property's direct oracle is evaluated on the real state of ALL
+// chains, independently of the model.
 package c02
 
 import (
+	"context"
 	"encoding/binary"
 	"encoding/json"
+	"errors"
 	"fmt"
+	"math/big"
 	"math/rand"
 	"os"
 	"path/filepath"
@@ -27,27 +34,39 @@ import (
 	"cosmossdk.io/log"
 	sdkmath "cosmossdk.io/math"
 	sdk "github.com/cosmos/cosmos-sdk/types"
+	govv1beta1 "github.com/cosmos/cosmos-sdk/x/gov/types/v1beta1"
+	stakingtypes "github.com/cosmos/cosmos-sdk/x/staking/types"
 	"github.com/palomachain/paloma/v2/util/eventbus"
 	"github.com/palomachain/paloma/v2/verifharness/emit"
 	"github.com/palomachain/paloma/v2/x/skyway"
 	"github.com/palomachain/paloma/v2/x/skyway/keeper"
 	"github.com/palomachain/paloma/v2/x/skyway/types"
+	treasurytypes "github.com/palomachain/paloma/v2/x/treasury/types"
 	valsettypes "github.com/palomachain/paloma/v2/x/valset/types"
 )
 
 const (
-	chain     = "test-chain"
-	denom     = "ugrain"
-	tokReg    = "0x0bc529c00C6401aEF6D220BE8C6Ea1667F6Ad93e" // mapped to ugrain by the test environment
+	nChains   = 3
 	tokUnreg  = "0x3333333333333333333333333333333333333333"
 	ethSender = "0x2222222222222222222222222222222222222222"
+	ethDest   = "0x9999999999999999999999999999999999999999"
 	nVals     = 5
 	nRcv      = 3
+	nClients  = 3 // per chain
+	saleWrong = "0xDDdDddDdDdddDDddDDddDDDDdDdDDdDDdDDDDDDd"
 )
 
-var compassIDs = []string{"", "compass-one", "compass-two"}
+var (
+	chainNames = []string{"test-chain", "test-chain-2", "evm-c"}
+	denomsC    = []string{"ugrain", "utokb", "utokc"}
+	// registered bridge token of each chain (index in the model = chain index)
+	tokC = []string{"0x0bc529c00C6401aEF6D220BE8C6Ea1667F6Ad93e", "0x1111111111111111111111111111111111111111", "0x4444444444444444444444444444444444444444"}
+	// registered light-node sale contract of each chain ("" = none)
+	saleC      = []string{"0xAaAaAaAaAaAaAaAaAaAaAaAaAaAaAaAaAaAaAaAa", "0xBbBbBbBbBbBbBbBbBbBbBbBbBbBbBbBbBbBbBbBb", ""}
+	compassIDs = []string{"", "compass-one", "compass-two"}
+)
 
-// ---- operations (also the replay / corpus format) ----
+// ---- operations (also the replay / corpus format; chain 0 when "c" is absent) ----
 type claimT struct {
 	Nonce   uint64 `json:"nonce"`
 	Height  uint64 `json:"height"`
@@ -55,43 +74,128 @@ type claimT struct {
 	Amt     int64  `json:"amt"`
 	Rcv     int    `json:"rcv"`
 	Compass int    `json:"compass"`
-	Batch   bool   `json:"batch,omitempty"` // a MsgBatchSendToRemoteClaim (batch nonce = amt) instead of a deposit
+	Batch   bool   `json:"batch,omitempty"`  // a MsgBatchSendToRemoteClaim (batch nonce = amt) instead of a deposit
+	Sale    bool   `json:"sale,omitempty"`   // a MsgLightNodeSaleClaim: client = rcv, amount = amt, tok = names the registered sale contract
+	OtherTk bool   `json:"othertk,omitempty"` // batch claim naming a token contract that has no batches
 }
 
 type opT struct {
-	Kind  string  `json:"op"` // vote tally prune powers catchup override activate
-	V     int     `json:"v,omitempty"`
-	Claim *claimT `json:"claim,omitempty"`
-	N     uint64  `json:"n,omitempty"`
-	ID    int     `json:"id,omitempty"`
-	Pw    []int64 `json:"pw,omitempty"`
-	Total int64   `json:"total,omitempty"`
+	Kind   string  `json:"op"` // vote tally prune powers valset catchup override activate mkbatch dropbatch regenesis
+	C      int     `json:"c,omitempty"`
+	V      int     `json:"v,omitempty"`
+	Claim  *claimT `json:"claim,omitempty"`
+	N      uint64  `json:"n,omitempty"`
+	ID     int     `json:"id,omitempty"`
+	Pw     []int64 `json:"pw,omitempty"`
+	Total  int64   `json:"total,omitempty"`
+	Status []int   `json:"status,omitempty"` // valset: per validator 0 bonded 1 unbonding 2 unbonded 3 no staking record
+	Jailed []bool  `json:"jailed,omitempty"`
+	BN     uint64  `json:"bn,omitempty"` // dropbatch
+}
+
+// palomaStub stands in for x/paloma (C18 drives the real one): one licence per client, first wins.
+type palomaStub struct{ lic map[string]int64 }
+
+func (p *palomaStub) CreateSaleLightNodeClientLicense(_ context.Context, client string, amount sdkmath.Int) error {
+	if _, ok := p.lic[client]; ok {
+		return errors.New("license already exists")
+	}
+	p.lic[client] = amount.Int64()
+	return nil
 }
 
 type env struct {
-	in    keeper.TestInput
-	base  sdk.Context
-	ms    types.MsgServer
-	rcv   []sdk.AccAddress
-	valIx map[string]int // valoper bech32 -> index
-	rawIx map[string]int // raw address bytes -> index
-	hashH map[uint64]string
+	in     keeper.TestInput
+	base   sdk.Context
+	ms     types.MsgServer
+	gov    govv1beta1.Handler
+	pal    *palomaStub
+	rcv    []sdk.AccAddress
+	user   sdk.AccAddress
+	client [][]string // [chain][i] bech32
+	valIx  map[string]int
+	rawIx  map[string]int
+	hashH  map[uint64]string
+	orig   []stakingtypes.Validator
+}
+
+func must(err error) {
+	if err != nil {
+		panic(err)
+	}
 }
 
 func setup(t *testing.T) *env {
 	in, c := keeper.SetupFiveValChain(t)
-	e := &env{in: in, valIx: map[string]int{}, rawIx: map[string]int{}, hashH: map[uint64]string{}}
-	e.base = sdk.UnwrapSDKContext(c).WithLogger(log.NewNopLogger())
-	e.ms = keeper.NewMsgServerImpl(in.SkywayKeeper)
+	e := &env{in: in, valIx: map[string]int{}, rawIx: map[string]int{}, hashH: map[uint64]string{}, pal: &palomaStub{lic: map[string]int64{}}}
+	ctx := sdk.UnwrapSDKContext(c).WithLogger(log.NewNopLogger())
+	k := in.SkywayKeeper
+	e.ms = keeper.NewMsgServerImpl(k)
+	e.gov = keeper.NewSkywayProposalHandler(k)
 	for i := 0; i < nVals; i++ {
 		e.valIx[keeper.ValAddrs[i].String()] = i
 		e.rawIx[string(keeper.ValAddrs[i].Bytes())] = i
 	}
+	// two more remote chains; every validator has an account on each; fresh snapshot (batch building picks a relayer)
+	must(in.EvmKeeper.AddSupportForNewChain(ctx, chainNames[1], 2, 123, "0x1234", big.NewInt(55)))
+	must(in.EvmKeeper.AddSupportForNewChain(ctx, chainNames[2], 3, 123, "0x1234", big.NewInt(55)))
+	for i, addr := range keeper.ValAddrs {
+		v, err := in.StakingKeeper.GetValidator(ctx, addr)
+		must(err)
+		pk, err := v.ConsPubKey()
+		must(err)
+		var infos []*valsettypes.ExternalChainInfo
+		var fees []treasurytypes.RelayerFeeSetting_FeeSetting
+		for _, ch := range chainNames {
+			infos = append(infos, &valsettypes.ExternalChainInfo{ChainType: "evm", ChainReferenceID: ch, Address: keeper.EthAddrs[i].String(), Pubkey: pk.Bytes()})
+			fees = append(fees, treasurytypes.RelayerFeeSetting_FeeSetting{Multiplicator: sdkmath.LegacyMustNewDecFromStr("1.10"), ChainReferenceId: ch})
+		}
+		must(in.ValsetKeeper.AddExternalChainInfo(ctx, addr, infos))
+		must(in.TreasuryKeeper.SetRelayerFee(ctx, addr, &treasurytypes.RelayerFeeSetting{ValAddress: addr.String(), Fees: fees}))
+	}
+	ctx = ctx.WithBlockHeight(ctx.BlockHeight() + 1)
+	_, err := in.ValsetKeeper.TriggerSnapshotBuild(ctx)
+	must(err)
+	in.MetrixKeeper.UpdateUptime(ctx)
+	for ci := 1; ci < nChains; ci++ {
+		must(e.gov(ctx, &types.SetERC20ToDenomProposal{Title: "t", Description: "d", ChainReferenceId: chainNames[ci], Erc20: tokC[ci], Denom: denomsC[ci]}))
+	}
+	var sales []*types.LightNodeSaleContract
+	for ci, a := range saleC {
+		if a != "" {
+			sales = append(sales, &types.LightNodeSaleContract{ChainReferenceId: chainNames[ci], ContractAddress: a})
+		}
+	}
+	must(k.SetAllLighNodeSaleContracts(ctx, sales))
+	k.VerifC11SetPalomaKeeper(e.pal)
 	for i := 0; i < nRcv; i++ {
 		b := make([]byte, 20)
 		b[0], b[1], b[19] = 0xC0, 0x02, byte(i+1)
 		e.rcv = append(e.rcv, sdk.AccAddress(b))
 	}
+	ub := make([]byte, 20)
+	ub[0], ub[1], ub[19] = 0xC0, 0x02, 0x77
+	e.user = sdk.AccAddress(ub)
+	for _, d := range denomsC {
+		cs := sdk.NewCoins(sdk.NewInt64Coin(d, 1_000_000))
+		must(in.BankKeeper.MintCoins(ctx, types.ModuleName, cs))
+		must(in.BankKeeper.SendCoinsFromModuleToAccount(ctx, types.ModuleName, e.user, cs))
+	}
+	for ci := 0; ci < nChains; ci++ {
+		var l []string
+		for i := 0; i < nClients; i++ {
+			b := make([]byte, 20)
+			b[0], b[1], b[18], b[19] = 0xC1, 0x02, byte(ci), byte(i+1)
+			l = append(l, sdk.AccAddress(b).String())
+		}
+		e.client = append(e.client, l)
+	}
+	for _, addr := range keeper.ValAddrs {
+		v, err := in.StakingKeeper.GetValidator(ctx, addr)
+		must(err)
+		e.orig = append(e.orig, v)
+	}
+	e.base = ctx
 	return e
 }
 
@@ -104,53 +208,40 @@ func (e *env) orch(v int) string {
 	return sdk.AccAddress(b).String()
 }
 
-func (e *env) mkBatchClaim(v int, c *claimT) *types.MsgBatchSendToRemoteClaim {
-	o := e.orch(v)
-	return &types.MsgBatchSendToRemoteClaim{
-		EventNonce:       c.Nonce,
-		EthBlockHeight:   c.Height,
-		BatchNonce:       uint64(c.Amt),
-		TokenContract:    tokReg,
-		ChainReferenceId: chain,
-		Orchestrator:     o,
-		Metadata:         valsettypes.MsgMetadata{Creator: o, Signers: []string{o}},
-		SkywayNonce:      c.Nonce,
-		CompassId:        compassIDs[c.Compass],
-	}
+func md(o string) valsettypes.MsgMetadata {
+	return valsettypes.MsgMetadata{Creator: o, Signers: []string{o}}
 }
 
-func (e *env) mkClaim(v int, c *claimT) *types.MsgSendToPalomaClaim {
+// mkMsg builds the claim message validator v submits on chain ci.
+func (e *env) mkMsg(ci, v int, c *claimT) types.EthereumClaim {
+	o := e.orch(v)
+	switch {
+	case c.Batch:
+		tk := tokC[ci]
+		if c.OtherTk {
+			tk = tokUnreg
+		}
+		return &types.MsgBatchSendToRemoteClaim{EventNonce: c.Nonce, EthBlockHeight: c.Height, BatchNonce: uint64(c.Amt), TokenContract: tk,
+			ChainReferenceId: chainNames[ci], Orchestrator: o, Metadata: md(o), SkywayNonce: c.Nonce, CompassId: compassIDs[c.Compass]}
+	case c.Sale:
+		sc := saleWrong
+		if c.Tok {
+			sc = saleC[ci]
+		}
+		return &types.MsgLightNodeSaleClaim{EventNonce: c.Nonce, EthBlockHeight: c.Height, Orchestrator: o, Metadata: md(o), ChainReferenceId: chainNames[ci],
+			SkywayNonce: c.Nonce, ClientAddress: e.client[ci][c.Rcv%nClients], Amount: sdkmath.NewInt(c.Amt), SmartContractAddress: sc, CompassId: compassIDs[c.Compass]}
+	}
 	tok := tokUnreg
 	if c.Tok {
-		tok = tokReg
+		tok = tokC[ci]
 	}
-	o := e.orch(v)
-	return &types.MsgSendToPalomaClaim{
-		EventNonce:       c.Nonce,
-		EthBlockHeight:   c.Height,
-		TokenContract:    tok,
-		Amount:           sdkmath.NewInt(c.Amt),
-		EthereumSender:   ethSender,
-		PalomaReceiver:   e.rcv[c.Rcv].String(),
-		Orchestrator:     o,
-		ChainReferenceId: chain,
-		Metadata:         valsettypes.MsgMetadata{Creator: o, Signers: []string{o}},
-		SkywayNonce:      c.Nonce,
-		CompassId:        compassIDs[c.Compass],
-	}
+	return &types.MsgSendToPalomaClaim{EventNonce: c.Nonce, EthBlockHeight: c.Height, TokenContract: tok, Amount: sdkmath.NewInt(c.Amt), EthereumSender: ethSender,
+		PalomaReceiver: e.rcv[c.Rcv%nRcv].String(), Orchestrator: o, ChainReferenceId: chainNames[ci], Metadata: md(o), SkywayNonce: c.Nonce, CompassId: compassIDs[c.Compass]}
 }
 
-func (e *env) hashOf(c *claimT) (uint64, []byte) {
-	var h []byte
-	var err error
-	if c.Batch {
-		h, err = e.mkBatchClaim(0, c).ClaimHash()
-	} else {
-		h, err = e.mkClaim(0, c).ClaimHash()
-	}
-	if err != nil {
-		panic(err)
-	}
+func (e *env) hashOf(ci int, c *claimT) (uint64, []byte) {
+	h, err := e.mkMsg(ci, 0, c).ClaimHash()
+	must(err)
 	x := binary.BigEndian.Uint64(h[:8]) >> 1 // 63 bits, order preserving
 	if prev, ok := e.hashH[x]; ok && prev != string(h) {
 		panic("two claim hashes share their first 63 bits")
@@ -165,9 +256,8 @@ type attObs struct {
 	H        uint64
 	Hash     string
 	Votes    []int
-	RawVotes []string
 	Observed bool
-	Claim    *types.MsgSendToPalomaClaim
+	Cl       types.EthereumClaim
 	Compass  string
 }
 
@@ -177,17 +267,18 @@ type snap struct {
 	Compass int
 	Atts    []attObs
 	VN      [][2]uint64
-	Bal     []int64
+	Bat     [][3]uint64 // token idx (chain idx, 9 = other), batch nonce, timeout — of this chain, ascending nonce
+	Lic     [][2]int64  // client id (10*chain + i), amount — of this chain's clients
+	Bal     []int64     // receivers, all denoms together
 }
 
-func (e *env) observe(ctx sdk.Context) snap {
+func (e *env) observe(ctx sdk.Context, ci int) snap {
 	k := e.in.SkywayKeeper
+	chain := chainNames[ci]
 	var s snap
 	var err error
 	s.Last, err = k.GetLastObservedSkywayNonce(ctx, chain)
-	if err != nil {
-		panic(err)
-	}
+	must(err)
 	s.Height = k.GetLastObservedEthereumBlockHeight(ctx, chain).EthereumBlockHeight
 	cid := k.GetLatestCompassID(ctx, chain)
 	s.Compass = -1
@@ -196,14 +287,11 @@ func (e *env) observe(ctx sdk.Context) snap {
 			s.Compass = i
 		}
 	}
-	err = k.IterateAttestations(ctx, chain, false, func(_ []byte, att types.Attestation) bool {
+	must(k.IterateAttestations(ctx, chain, false, func(_ []byte, att types.Attestation) bool {
 		cl, err := k.UnpackAttestationClaim(&att)
-		if err != nil {
-			panic(err)
-		}
+		must(err)
 		hash, _ := cl.ClaimHash()
-		a := attObs{Nonce: cl.GetSkywayNonce(), H: binary.BigEndian.Uint64(hash[:8]) >> 1, Hash: string(hash), Observed: att.Observed, RawVotes: att.Votes, Compass: cl.GetCompassID()}
-		a.Claim, _ = cl.(*types.MsgSendToPalomaClaim)
+		a := attObs{Nonce: cl.GetSkywayNonce(), H: binary.BigEndian.Uint64(hash[:8]) >> 1, Hash: string(hash), Observed: att.Observed, Compass: cl.GetCompassID(), Cl: cl}
 		for _, v := range att.Votes {
 			ix, ok := e.valIx[v]
 			if !ok {
@@ -213,42 +301,87 @@ func (e *env) observe(ctx sdk.Context) snap {
 		}
 		s.Atts = append(s.Atts, a)
 		return false
-	})
-	if err != nil {
-		panic(err)
-	}
-	err = k.IterateValidatorLastEventNonces(ctx, chain, func(key []byte, nonce uint64) bool {
+	}))
+	must(k.IterateValidatorLastEventNonces(ctx, chain, func(key []byte, nonce uint64) bool {
 		ix, ok := e.rawIx[string(key)]
 		if !ok {
 			panic("validator nonce record of an unknown validator")
 		}
 		s.VN = append(s.VN, [2]uint64{uint64(ix), nonce})
 		return false
-	})
-	if err != nil {
-		panic(err)
-	}
+	}))
 	sort.Slice(s.VN, func(i, j int) bool { return s.VN[i][0] < s.VN[j][0] })
+	bs, err := k.GetOutgoingTxBatches(ctx)
+	must(err)
+	for _, b := range bs {
+		if b.ChainReferenceID != chain {
+			continue
+		}
+		tk := uint64(9)
+		for i, t := range tokC {
+			if strings.EqualFold(t, b.TokenContract.GetAddress().Hex()) {
+				tk = uint64(i)
+			}
+		}
+		s.Bat = append(s.Bat, [3]uint64{tk, b.BatchNonce, b.BatchTimeout})
+	}
+	sort.Slice(s.Bat, func(i, j int) bool { return s.Bat[i][1] < s.Bat[j][1] })
+	for i, c := range e.client[ci] {
+		if a, ok := e.pal.lic[c]; ok {
+			s.Lic = append(s.Lic, [2]int64{int64(10*ci + i + 1), a})
+		}
+	}
 	for _, r := range e.rcv {
-		s.Bal = append(s.Bal, e.in.BankKeeper.GetBalance(ctx, r, denom).Amount.Int64())
+		var sum int64
+		for _, d := range denomsC {
+			sum += e.in.BankKeeper.GetBalance(ctx, r, d).Amount.Int64()
+		}
+		s.Bal = append(s.Bal, sum)
 	}
 	return s
+}
+
+func (e *env) observeAll(ctx sdk.Context) []snap {
+	out := make([]snap, nChains)
+	for ci := range out {
+		out[ci] = e.observe(ctx, ci)
+	}
+	return out
+}
+
+// chainEqual: the chain-local part of two snapshots (everything but the bank balances)
+func chainEqual(a, b snap) bool {
+	return chainKey(a) == chainKey(b)
+}
+
+func chainKey(s snap) string {
+	var sb strings.Builder
+	fmt.Fprintf(&sb, "%d/%d/%d|", s.Last, s.Height, s.Compass)
+	for _, a := range s.Atts {
+		fmt.Fprintf(&sb, "%d:%x:%v:%v;", a.Nonce, a.Hash, a.Votes, a.Observed)
+	}
+	fmt.Fprintf(&sb, "|%v|%v|%v", s.VN, s.Bat, s.Lic)
+	return sb.String()
 }
 
 func (e *env) powers(ctx sdk.Context) ([]int64, int64) {
 	p := make([]int64, nVals)
 	for i := range p {
 		x, err := e.in.StakingKeeper.GetLastValidatorPower(ctx, keeper.ValAddrs[i])
-		if err != nil {
-			panic(err)
-		}
+		must(err)
 		p[i] = x
 	}
 	t, err := e.in.StakingKeeper.GetLastTotalPower(ctx)
-	if err != nil {
-		panic(err)
-	}
+	must(err)
 	return p, t.Int64()
+}
+
+func (e *env) isBonded(ctx sdk.Context, v int) bool {
+	if v < 0 || v >= nVals {
+		return false
+	}
+	val, err := e.in.StakingKeeper.GetValidator(ctx, keeper.ValAddrs[v])
+	return err == nil && val.IsBonded()
 }
 
 // deliver runs f like baseapp runs a message: cache context, committed on success; panic = failed tx.
@@ -266,21 +399,32 @@ func deliver(root sdk.Context, f func(ctx sdk.Context) error) (err error) {
 	return err
 }
 
+type applyOut struct {
+	ok      bool
+	errText string
+	bn, to  uint64 // mkbatch: what the keeper stored
+}
+
 // apply executes one operation on the real keeper; ok = accepted (vote) / returned nil (tally).
-func (e *env) apply(ctx sdk.Context, o opT) (ok bool, errText string) {
+func (e *env) apply(ctx sdk.Context, o opT) (out applyOut) {
 	k := e.in.SkywayKeeper
+	chain := chainNames[o.C]
 	var err error
 	switch o.Kind {
 	case "vote":
-		if o.Claim.Batch {
-			msg := e.mkBatchClaim(o.V, o.Claim)
-			if err = msg.ValidateBasic(); err == nil {
-				err = deliver(ctx, func(c sdk.Context) error { _, er := e.ms.BatchSendToRemoteClaim(c, msg); return er })
+		msg := e.mkMsg(o.C, o.V, o.Claim)
+		switch m := msg.(type) {
+		case *types.MsgBatchSendToRemoteClaim:
+			if err = m.ValidateBasic(); err == nil {
+				err = deliver(ctx, func(c sdk.Context) error { _, er := e.ms.BatchSendToRemoteClaim(c, m); return er })
 			}
-		} else {
-			msg := e.mkClaim(o.V, o.Claim)
-			if err = msg.ValidateBasic(); err == nil { // baseapp runs ValidateBasic before the handler
-				err = deliver(ctx, func(c sdk.Context) error { _, er := e.ms.SendToPalomaClaim(c, msg); return er })
+		case *types.MsgLightNodeSaleClaim:
+			if err = m.ValidateBasic(); err == nil {
+				err = deliver(ctx, func(c sdk.Context) error { _, er := e.ms.LightNodeSaleClaim(c, m); return er })
+			}
+		case *types.MsgSendToPalomaClaim:
+			if err = m.ValidateBasic(); err == nil { // baseapp runs ValidateBasic before the handler
+				err = deliver(ctx, func(c sdk.Context) error { _, er := e.ms.SendToPalomaClaim(c, m); return er })
 			}
 		}
 	case "tally":
@@ -293,57 +437,112 @@ func (e *env) apply(ctx sdk.Context, o opT) (ok bool, errText string) {
 			err = skyway.VerifC02AttestationTally(ctx, k, chain)
 		}()
 	case "prune":
-		err = skyway.VerifC02PruneAttestations(ctx, k, chain)
-		if err != nil {
-			panic(err)
-		}
+		must(skyway.VerifC02PruneAttestations(ctx, k, chain))
 	case "powers":
 		for i, p := range o.Pw {
-			if er := e.in.StakingKeeper.SetLastValidatorPower(ctx, keeper.ValAddrs[i], p); er != nil {
-				panic(er)
-			}
+			must(e.in.StakingKeeper.SetLastValidatorPower(ctx, keeper.ValAddrs[i], p))
 		}
-		if er := e.in.StakingKeeper.SetLastTotalPower(ctx, sdkmath.NewInt(o.Total)); er != nil {
-			panic(er)
+		must(e.in.StakingKeeper.SetLastTotalPower(ctx, sdkmath.NewInt(o.Total)))
+	case "valset":
+		for i, st := range o.Status {
+			v := e.orig[i]
+			if st == 3 { // no staking record: unbonded, emptied, removed
+				v.Status, v.Tokens, v.DelegatorShares = stakingtypes.Unbonded, sdkmath.ZeroInt(), sdkmath.LegacyZeroDec()
+				must(e.in.StakingKeeper.SetValidator(ctx, v))
+				must(e.in.StakingKeeper.RemoveValidator(ctx, keeper.ValAddrs[i]))
+				continue
+			}
+			v.Status = []stakingtypes.BondStatus{stakingtypes.Bonded, stakingtypes.Unbonding, stakingtypes.Unbonded}[st]
+			v.Jailed = len(o.Jailed) > i && o.Jailed[i]
+			must(e.in.StakingKeeper.SetValidator(ctx, v))
+			must(e.in.StakingKeeper.SetValidatorByConsAddr(ctx, v))
 		}
 	case "catchup":
-		if er := k.UpdateValidatorNoncesToLatest(ctx, chain); er != nil {
-			panic(er)
-		}
+		must(k.UpdateValidatorNoncesToLatest(ctx, chain))
 	case "override":
-		err = deliver(ctx, func(c sdk.Context) error {
+		must(deliver(ctx, func(c sdk.Context) error {
 			_, er := e.ms.OverrideNonceProposal(c, &types.MsgNonceOverrideProposal{
 				Metadata: valsettypes.MsgMetadata{Creator: k.GetAuthority()}, ChainReferenceId: chain, Nonce: o.N,
 			})
 			return er
-		})
-		if err != nil {
-			panic(err)
-		}
+		}))
 	case "activate":
 		eventbus.EVMActivatedChain().Publish(ctx, eventbus.EVMActivatedChainEvent{ChainReferenceID: chain, SmartContractUniqueID: []byte(compassIDs[o.ID])})
+	case "mkbatch":
+		// a user sends 10 units to the remote chain, the keeper builds a batch out of the pool
+		err = deliver(ctx, func(c sdk.Context) error {
+			if _, er := e.ms.SendToRemote(c, &types.MsgSendToRemote{EthDest: ethDest, Amount: sdk.NewInt64Coin(denomsC[o.C], 10), ChainReferenceId: chain, Metadata: md(e.user.String())}); er != nil {
+				return er
+			}
+			contract, er := types.NewEthAddress(tokC[o.C])
+			if er != nil {
+				return er
+			}
+			b, er := k.BuildOutgoingTXBatch(c, chain, *contract, 10)
+			if er != nil {
+				return er
+			}
+			if b == nil {
+				return errors.New("nothing batched")
+			}
+			out.bn, out.to = b.BatchNonce, b.BatchTimeout
+			return nil
+		})
+		if err != nil {
+			panic("mkbatch: " + err.Error())
+		}
+	case "dropbatch":
+		contract, er := types.NewEthAddress(tokC[o.C])
+		must(er)
+		_ = k.CancelOutgoingTXBatch(ctx, *contract, o.BN) // unknown batch: error, nothing written
+	case "regenesis":
+		gs := keeper.ExportGenesis(ctx, k)
+		st := k.VerifC11RawStore(ctx)
+		var keys [][]byte
+		it := st.Iterator(nil, nil)
+		for ; it.Valid(); it.Next() {
+			keys = append(keys, append([]byte{}, it.Key()...))
+		}
+		it.Close()
+		for _, key := range keys {
+			st.Delete(key)
+		}
+		keeper.InitGenesis(ctx, k, gs)
 	default:
 		panic("unknown op " + o.Kind)
 	}
 	if err != nil {
-		return false, err.Error()
+		return applyOut{ok: false, errText: err.Error()}
 	}
-	return true, ""
+	out.ok = true
+	return out
 }
 
 // ---- Coq printers ----
-func coqClaim(c *claimT, h int) string {
-	if c.Batch { // the handler finds no such batch: nothing is applied
-		return fmt.Sprintf("(mkClaim %s %d %s %d 0 %s false)", emit.ZU(c.Nonce), h, emit.ZU(c.Height), c.Compass, emit.ZI(c.Amt))
+func coqClaim(ci int, c *claimT, h int) string {
+	kind, rcv, amt, tok := 0, int64(c.Rcv%nRcv), c.Amt, c.Tok
+	switch {
+	case c.Batch:
+		kind, rcv, tok = 1, int64(ci), false
+		if c.OtherTk {
+			rcv = 9
+		}
+	case c.Sale:
+		kind, rcv = 2, int64(10*ci+c.Rcv%nClients+1)
+		tok = c.Tok && saleC[ci] != ""
 	}
-	return fmt.Sprintf("(mkClaim %s %d %s %d %d %s %s)", emit.ZU(c.Nonce), h, emit.ZU(c.Height), c.Compass, c.Rcv, emit.ZI(c.Amt), emit.Bool(c.Tok))
+	return fmt.Sprintf("(mkClaim %s %d %s %d %d %d %s %s)", emit.ZU(c.Nonce), h, emit.ZU(c.Height), c.Compass, kind, rcv, emit.ZI(amt), emit.Bool(tok))
 }
 
-func (e *env) coqOp(o opT, rank map[uint64]int) string {
+func global(o opT) bool {
+	return o.Kind == "powers" || o.Kind == "valset" || o.Kind == "regenesis"
+}
+
+func (e *env) coqOp(o opT, ao applyOut, rank map[uint64]int) string {
 	switch o.Kind {
 	case "vote":
-		h, _ := e.hashOf(o.Claim)
-		return fmt.Sprintf("Vote %s %s %s", emit.ZI(int64(o.V)), emit.Bool(o.V >= 0 && o.V < nVals), coqClaim(o.Claim, rank[h]))
+		h, _ := e.hashOf(o.C, o.Claim)
+		return fmt.Sprintf("Vote %s %s %s", emit.ZI(int64(o.V)), emit.Bool(o.V >= 0 && o.V < nVals), coqClaim(o.C, o.Claim, rank[h]))
 	case "tally":
 		return "Tally"
 	case "prune":
@@ -354,21 +553,34 @@ func (e *env) coqOp(o opT, rank map[uint64]int) string {
 			ps = append(ps, emit.Pair(emit.ZI(int64(i)), emit.ZI(p)))
 		}
 		return fmt.Sprintf("SetPowers %s %s", emit.List(ps), emit.ZI(o.Total))
+	case "valset":
+		var bs []string
+		for i, st := range o.Status {
+			if st == 0 {
+				bs = append(bs, emit.ZI(int64(i)))
+			}
+		}
+		return "SetBonded " + emit.List(bs)
 	case "catchup":
 		return "CatchUp"
 	case "override":
 		return "Override " + emit.ZU(o.N)
 	case "activate":
 		return fmt.Sprintf("Activate %d", o.ID)
+	case "mkbatch":
+		return fmt.Sprintf("MkBatch %d %s %s", o.C, emit.ZU(ao.bn), emit.ZU(ao.to))
+	case "dropbatch":
+		return fmt.Sprintf("DropBatch %d %s", o.C, emit.ZU(o.BN))
+	case "regenesis":
+		return "Regenesis"
 	}
 	panic("op")
 }
 
-// coqObs prints the observation; the three lists are printed only when they differ from the
-// previous step's.  Claim hashes are printed as their rank among all hashes of the history
-// (order preserving, so the model's store order is the implementation's).
-func coqObs(ok bool, s snap, prev *snap, rank map[uint64]int) string {
-	var as, vn, bal []string
+type lists struct{ atts, vn, bal, bat, lic string }
+
+func coqLists(s snap, rank map[uint64]int) lists {
+	var as, vn, bal, bat, lic []string
 	for _, a := range s.Atts {
 		var vs []string
 		for _, v := range a.Votes {
@@ -382,58 +594,116 @@ func coqObs(ok bool, s snap, prev *snap, rank map[uint64]int) string {
 	for i, b := range s.Bal {
 		bal = append(bal, emit.Pair(emit.ZI(int64(i)), emit.ZI(b)))
 	}
-	sa, sv, sb := emit.List(as), emit.List(vn), emit.List(bal)
-	oa, ov, ob := "(Some "+sa+")", "(Some "+sv+")", "(Some "+sb+")"
-	if prev != nil {
-		var pas, pvn, pbal []string
-		for _, a := range prev.Atts {
-			var vs []string
-			for _, v := range a.Votes {
-				vs = append(vs, emit.ZI(int64(v)))
-			}
-			pas = append(pas, emit.Pair(emit.ZU(a.Nonce), emit.ZI(int64(rank[a.H])), emit.List(vs), emit.Bool(a.Observed)))
-		}
-		for _, x := range prev.VN {
-			pvn = append(pvn, emit.Pair(emit.ZU(x[0]), emit.ZU(x[1])))
-		}
-		for i, b := range prev.Bal {
-			pbal = append(pbal, emit.Pair(emit.ZI(int64(i)), emit.ZI(b)))
-		}
-		if emit.List(pas) == sa {
-			oa = "None"
-		}
-		if emit.List(pvn) == sv {
-			ov = "None"
-		}
-		if emit.List(pbal) == sb {
-			ob = "None"
-		}
+	for _, b := range s.Bat {
+		bat = append(bat, emit.Pair(emit.ZU(b[0]), emit.ZU(b[1])))
 	}
-	return fmt.Sprintf("(mkObs %s %s %s %d %s %s %s)", emit.Bool(ok), emit.ZU(s.Last), emit.ZU(s.Height), s.Compass, oa, ov, ob)
+	for _, l := range s.Lic {
+		lic = append(lic, emit.Pair(emit.ZI(l[0]), emit.ZI(l[1])))
+	}
+	return lists{emit.List(as), emit.List(vn), emit.List(bal), emit.List(bat), emit.List(lic)}
+}
+
+// coqObs prints the observation of chain ci; the lists are printed only when they differ from the
+// previous record of that chain.  Claim hashes are printed as their rank among all hashes of the
+// history (order preserving, so the model's store order is the implementation's).
+func coqObs(ci int, ok bool, s snap, prev *lists, rank map[uint64]int) (string, lists) {
+	cur := coqLists(s, rank)
+	opt := func(now, before string) string {
+		if prev != nil && now == before {
+			return "None"
+		}
+		return "(Some " + now + ")"
+	}
+	p := lists{}
+	if prev != nil {
+		p = *prev
+	}
+	return fmt.Sprintf("(mkObs %d %s %s %s %d %s %s %s %s %s)", ci, emit.Bool(ok), emit.ZU(s.Last), emit.ZU(s.Height), s.Compass,
+		opt(cur.atts, p.atts), opt(cur.vn, p.vn), opt(cur.bal, p.bal), opt(cur.bat, p.bat), opt(cur.lic, p.lic)), cur
 }
 
 // ---- the direct oracle (independent mirror; speaks about the REAL state only) ----
 type oracle struct {
-	voted      map[string]map[int]bool // claim hash -> validators whose vote for it was accepted
-	epoch      int
-	seen       map[[2]uint64]bool // (epoch, nonce) that took effect
+	voted      map[string]map[int]bool // chain/claim hash -> validators whose vote for it was accepted
+	epoch      [nChains]int
+	seen       map[[3]uint64]bool // (chain, epoch, nonce) that took effect
 	violations int
 }
 
 func newOracle() *oracle {
-	return &oracle{voted: map[string]map[int]bool{}, seen: map[[2]uint64]bool{}}
+	return &oracle{voted: map[string]map[int]bool{}, seen: map[[3]uint64]bool{}}
 }
 
 type viol struct{ id, what string }
 
-func (or *oracle) step(e *env, ctx sdk.Context, o opT, ok bool, pre, post snap) []viol {
-	var out []viol
-	if o.Kind == "vote" && ok {
-		_, h := e.hashOf(o.Claim)
-		if or.voted[string(h)] == nil {
-			or.voted[string(h)] = map[int]bool{}
+func distinctPower(a attObs, pw []int64) int64 {
+	d := map[int]bool{}
+	var sum int64
+	for _, v := range a.Votes {
+		if v >= 0 && !d[v] {
+			d[v] = true
+			sum += pw[v]
 		}
-		or.voted[string(h)][o.V] = true
+	}
+	return sum
+}
+
+func inCompass(compass int, a attObs) bool {
+	return compass <= 0 || a.Compass == compassIDs[compass]
+}
+
+// step evaluates the property on the real state before / after one operation.  bondedBefore: was
+// the voting validator bonded in the real staking store before the operation.
+func (or *oracle) step(e *env, ctx sdk.Context, run *emit.Run, o opT, ok bool, errText string, bondedBefore bool, preAll, postAll []snap) []viol {
+	var out []viol
+	c := o.C
+	if global(o) {
+		c = 0
+	}
+	pre, post := preAll[c], postAll[c]
+	key := func(h string) string { return fmt.Sprintf("%d/%s", c, h) }
+	if o.Kind == "vote" && ok {
+		_, h := e.hashOf(o.C, o.Claim)
+		if or.voted[key(string(h))] == nil {
+			or.voted[key(string(h))] = map[int]bool{}
+		}
+		or.voted[key(string(h))][o.V] = true
+		if !bondedBefore {
+			out = append(out, viol{"C02:vote-of-unbonded-accepted", fmt.Sprintf("chain %d: the vote of validator %d was accepted although staking has no Bonded record for it", c, o.V)})
+		}
+	}
+	// votes / end-blocker steps / resets of one chain never touch another chain; staking changes touch none
+	if o.Kind != "regenesis" {
+		for ci := 0; ci < nChains; ci++ {
+			if (ci != c || global(o)) && !chainEqual(preAll[ci], postAll[ci]) {
+				out = append(out, viol{"C02:cross-chain-interference", fmt.Sprintf("op %s addressed to chain %d changed the oracle stores of chain %d", o.Kind, o.C, ci)})
+			}
+		}
+	}
+	if global(o) && o.Kind != "regenesis" {
+		return out
+	}
+	if o.Kind == "regenesis" { // cursor and observed flags of every chain survive; nothing takes effect
+		for ci := 0; ci < nChains; ci++ {
+			if preAll[ci].Last != postAll[ci].Last {
+				out = append(out, viol{"C02:genesis-roundtrip-cursor", fmt.Sprintf("chain %d: cursor %d before export, %d after import", ci, preAll[ci].Last, postAll[ci].Last)})
+			}
+			was := map[string]bool{}
+			for _, a := range preAll[ci].Atts {
+				was[a.Hash] = a.Observed
+			}
+			for _, a := range postAll[ci].Atts {
+				if w, okk := was[a.Hash]; !okk || w != a.Observed {
+					out = append(out, viol{"C02:genesis-roundtrip-observed", fmt.Sprintf("chain %d: attestation at nonce %d has Observed=%v after import (before: present=%v observed=%v)", ci, a.Nonce, a.Observed, okk, w)})
+				}
+			}
+			for i := range postAll[ci].Bal {
+				if postAll[ci].Bal[i] != preAll[ci].Bal[i] {
+					out = append(out, viol{"C02:effect-not-exactly-once", "a genesis round trip changed a receiver balance"})
+				}
+			}
+		}
+		return out
 	}
 	preObs := map[string]bool{}
 	for _, a := range pre.Atts {
@@ -447,6 +717,16 @@ func (or *oracle) step(e *env, ctx sdk.Context, o opT, ok bool, pre, post snap) 
 	}
 	pw, total := e.powers(ctx)
 	expBal := make([]int64, nRcv)
+	// batches / licences the newly observed claims must have consumed / created, in nonce order
+	sort.Slice(newly, func(i, j int) bool { return newly[i].Nonce < newly[j].Nonce })
+	bat := map[[2]uint64]uint64{}
+	for _, b := range pre.Bat {
+		bat[[2]uint64{b[0], b[1]}] = b[2]
+	}
+	lic := map[int64]int64{}
+	for _, l := range pre.Lic {
+		lic[l[0]] = l[1]
+	}
 	for _, a := range newly {
 		if o.Kind != "tally" {
 			out = append(out, viol{"C02:observed-outside-tally", fmt.Sprintf("attestation nonce %d became observed by op %s", a.Nonce, o.Kind)})
@@ -458,8 +738,8 @@ func (or *oracle) step(e *env, ctx sdk.Context, o opT, ok bool, pre, post snap) 
 				continue
 			}
 			distinct[v] = true
-			if v < 0 || !or.voted[a.Hash][v] {
-				out = append(out, viol{"C02:counted-validator-never-voted", fmt.Sprintf("nonce %d: validator %d is counted but no accepted vote of it for this claim exists", a.Nonce, v)})
+			if v < 0 || !or.voted[key(a.Hash)][v] {
+				out = append(out, viol{"C02:counted-validator-never-voted", fmt.Sprintf("chain %d nonce %d: validator %d is counted but no accepted vote of it for this claim on this chain exists", c, a.Nonce, v)})
 				continue
 			}
 			sum += pw[v]
@@ -472,24 +752,70 @@ func (or *oracle) step(e *env, ctx sdk.Context, o opT, ok bool, pre, post snap) 
 			out = append(out, viol{"C02:other-deployment-claim-applied",
 				fmt.Sprintf("claim at nonce %d names compass %q but the bridge deployment is %q", a.Nonce, a.Compass, compassIDs[pre.Compass])})
 		}
-		key := [2]uint64{uint64(or.epoch), a.Nonce}
-		if or.seen[key] {
+		k3 := [3]uint64{uint64(c), uint64(or.epoch[c]), a.Nonce}
+		if or.seen[k3] {
 			out = append(out, viol{"C02:two-claims-one-nonce", fmt.Sprintf("second claim took effect at nonce %d within one reset epoch", a.Nonce)})
 		}
-		or.seen[key] = true
-		if a.Claim != nil && a.Claim.TokenContract == tokReg {
-			for i, r := range e.rcv {
-				if r.String() == a.Claim.PalomaReceiver {
-					expBal[i] += a.Claim.Amount.Int64()
+		or.seen[k3] = true
+		switch m := a.Cl.(type) {
+		case *types.MsgSendToPalomaClaim:
+			if strings.EqualFold(m.TokenContract, tokC[c]) {
+				for i, r := range e.rcv {
+					if r.String() == m.PalomaReceiver {
+						expBal[i] += m.Amount.Int64()
+					}
+				}
+			}
+		case *types.MsgBatchSendToRemoteClaim:
+			if strings.EqualFold(m.TokenContract, tokC[c]) {
+				if to, okk := bat[[2]uint64{uint64(c), m.BatchNonce}]; okk && m.EthBlockHeight < to {
+					delete(bat, [2]uint64{uint64(c), m.BatchNonce})
+				}
+			}
+		case *types.MsgLightNodeSaleClaim:
+			if saleC[c] != "" && m.SmartContractAddress == saleC[c] {
+				for i, cl := range e.client[c] {
+					id := int64(10*c + i + 1)
+					if _, has := lic[id]; cl == m.ClientAddress && !has {
+						lic[id] = m.Amount.Int64()
+					}
 				}
 			}
 		}
 	}
+	if o.Kind == "tally" || o.Kind == "vote" || o.Kind == "prune" || o.Kind == "catchup" || o.Kind == "override" || o.Kind == "activate" {
+		// exactly once when applicable, never otherwise — batches and licences
+		var wantBat []string
+		for _, b := range pre.Bat {
+			if _, still := bat[[2]uint64{b[0], b[1]}]; still {
+				wantBat = append(wantBat, fmt.Sprint(b))
+			}
+		}
+		var gotBat []string
+		for _, b := range post.Bat {
+			gotBat = append(gotBat, fmt.Sprint(b))
+		}
+		if strings.Join(wantBat, ",") != strings.Join(gotBat, ",") {
+			out = append(out, viol{"C02:effect-not-exactly-once", fmt.Sprintf("chain %d pending batches %v, the executed-batch claims that took effect in this step leave %v", c, gotBat, wantBat)})
+		}
+		got := map[int64]int64{}
+		for _, l := range post.Lic {
+			got[l[0]] = l[1]
+		}
+		same := len(got) == len(lic)
+		for kk, v := range lic {
+			if got[kk] != v {
+				same = false
+			}
+		}
+		if !same {
+			out = append(out, viol{"C02:effect-not-exactly-once", fmt.Sprintf("chain %d licences %v, the sale claims that took effect in this step give %v", c, got, lic)})
+		}
+	}
 	if o.Kind == "override" || o.Kind == "activate" {
-		or.epoch++
+		or.epoch[c]++
 	} else {
 		// the cursor moves only by claims taking effect, one nonce at a time
-		sort.Slice(newly, func(i, j int) bool { return newly[i].Nonce < newly[j].Nonce })
 		good := post.Last-pre.Last == uint64(len(newly))
 		for i, a := range newly {
 			if a.Nonce != pre.Last+1+uint64(i) {
@@ -511,52 +837,156 @@ func (or *oracle) step(e *env, ctx sdk.Context, o opT, ok bool, pre, post snap) 
 				fmt.Sprintf("receiver %d balance changed by %d, the claims that took effect in this step pay %d", i, post.Bal[i]-pre.Bal[i], expBal[i])})
 		}
 	}
+	if o.Kind == "tally" {
+		out = append(out, or.stall(run, c, ok, errText, pre, post, newly, pw, total)...)
+	}
 	return out
+}
+
+// stall tells a stalled oracle (documented behaviour: theorems stalls_until_override,
+// stalls_on_refused_height, tally_aborts_while_stalled) from a safety violation.  A tally that
+// reports an error must be explained by a blocking attestation at cursor+1 of the current
+// deployment — already observed, or holding > 66 % with a remote height below the last observed
+// one —, must have written nothing unless a claim sorted BEFORE the blocker took effect, and must
+// not have let anything sorted after it take effect.  A tally that reports no error must not leave
+// behind an attestation at cursor+1 that could have been applied (a silent stall).
+func (or *oracle) stall(run *emit.Run, c int, ok bool, errText string, pre, post snap, newly []attObs, pw []int64, total int64) []viol {
+	var out []viol
+	// the order in which the end-blocker meets the attestations: store order, cursor moving as claims take effect
+	cur, ht := pre.Last, pre.Height
+	kind := ""
+	fires := map[string]bool{}
+	for i := range pre.Atts {
+		a := &pre.Atts[i]
+		if a.Nonce != cur+1 || !inCompass(pre.Compass, *a) {
+			continue
+		}
+		if a.Observed {
+			kind = "already observed (reset to a lower nonce)"
+			break
+		}
+		if 100*distinctPower(*a, pw) > 66*total {
+			if a.Cl.GetEthBlockHeight() < ht {
+				kind = "remote height below the last observed one"
+				break
+			}
+			fires[a.Hash] = true
+			cur, ht = a.Nonce, a.Cl.GetEthBlockHeight()
+		}
+	}
+	if !ok {
+		run.Count("tally_error", classify(errText))
+		if kind == "" {
+			return append(out, viol{"C02:tally-error-unexplained", fmt.Sprintf("chain %d: attestationTally failed (%s) with no blocking attestation at nonce %d", c, firstLine(errText), cur+1)})
+		}
+		run.Count("stall", kind)
+		if len(newly) == 0 && !chainEqual(pre, post) {
+			out = append(out, viol{"C02:stalled-tally-wrote", fmt.Sprintf("chain %d: attestationTally failed at nonce %d (%s) but changed the stores", c, cur+1, kind)})
+		}
+	} else if kind != "" {
+		out = append(out, viol{"C02:blocker-passed", fmt.Sprintf("chain %d: attestationTally returned nil although the attestation it meets at nonce %d is blocking: %s", c, cur+1, kind)})
+	}
+	// what took effect is what is met before the blocker, nothing sorted after it
+	for _, a := range newly {
+		if !fires[a.Hash] {
+			out = append(out, viol{"C02:effect-past-blocker", fmt.Sprintf("chain %d: the claim at nonce %d took effect although the tally order does not reach it (blocker: %q)", c, a.Nonce, kind)})
+		}
+		delete(fires, a.Hash)
+	}
+	if len(fires) > 0 {
+		out = append(out, viol{"C02:silent-stall", fmt.Sprintf("chain %d: %d attestation(s) with > 66%% of the power, in order and with an acceptable height, were not applied by attestationTally (returned nil=%v)", c, len(fires), ok)})
+	}
+	if ok { // silent stall, judged on the state after the tally alone
+		for _, a := range post.Atts {
+			if a.Nonce == post.Last+1 && !a.Observed && inCompass(post.Compass, a) && 100*distinctPower(a, pw) > 66*total && a.Cl.GetEthBlockHeight() >= post.Height {
+				out = append(out, viol{"C02:silent-stall", fmt.Sprintf("chain %d: attestationTally returned nil and left the attestation at nonce %d un-applied although distinct voters hold %d of %d and its height is not refused", c, a.Nonce, distinctPower(a, pw), total)})
+			}
+		}
+	}
+	return out
+}
+
+func firstLine(s string) string {
+	if i := strings.IndexByte(s, '\n'); i >= 0 {
+		return s[:i]
+	}
+	return s
 }
 
 // ---- running one history ----
 func (e *env) history(run *emit.Run, ops []opT, label string) {
 	ctx, _ := e.base.CacheContext() // discarded: every history starts from the same fresh chain
+	e.pal.lic = map[string]int64{}
 	or := newOracle()
 	var steps []string
 	accepted, rejected, fired := 0, 0, 0
+	// every history ends with an operation on each chain, so that each chain's final state is compared
+	for ci := 0; ci < nChains; ci++ {
+		ops = append(ops, opT{Kind: "tally", C: ci})
+	}
 	// order-preserving ranks of the claim hashes of this history
 	var hs []uint64
 	rank := map[uint64]int{}
+	chainsUsed := map[int]bool{}
 	for _, o := range ops {
 		if o.Kind == "vote" {
-			h, _ := e.hashOf(o.Claim)
+			h, _ := e.hashOf(o.C, o.Claim)
 			if _, ok := rank[h]; !ok {
 				rank[h] = 0
 				hs = append(hs, h)
 			}
+			chainsUsed[o.C] = true
 		}
 	}
 	sort.Slice(hs, func(i, j int) bool { return hs[i] < hs[j] })
 	for i, h := range hs {
 		rank[h] = i + 1
 	}
-	pre := e.observe(ctx)
-	var prevObs *snap
+	// the model starts with nobody bonded; the fixture's five validators are
+	pre := e.observeAll(ctx)
+	prevL := make([]*lists, nChains)
+	emitStep := func(o opT, ao applyOut, post []snap) {
+		ci, tag := o.C, fmt.Sprintf("(Some %d)", o.C)
+		if global(o) {
+			ci, tag = 0, "None"
+		}
+		ob, cur := coqObs(ci, ao.ok, post[ci], prevL[ci], rank)
+		prevL[ci] = &cur
+		steps = append(steps, emit.Pair(tag, e.coqOp(o, ao, rank), ob))
+	}
+	emitStep(opT{Kind: "valset", Status: []int{0, 0, 0, 0, 0}}, applyOut{ok: true}, pre)
 	for i, o := range ops {
-		ok, errText := e.apply(ctx, o)
-		post := e.observe(ctx)
-		steps = append(steps, emit.Pair(e.coqOp(o, rank), coqObs(ok, post, prevObs, rank)))
-		pcopy := post
-		prevObs = &pcopy
+		bondedBefore := o.Kind == "vote" && e.isBonded(ctx, o.V)
+		ao := e.apply(ctx, o)
+		post := e.observeAll(ctx)
+		emitStep(o, ao, post)
 		run.Count("ops", o.Kind)
 		if o.Kind == "vote" || o.Kind == "tally" {
-			if ok {
+			if ao.ok {
 				accepted++
 			} else {
 				rejected++
-				run.Count("errors", classify(errText))
+				if o.Kind == "vote" {
+					run.Count("errors", classify(ao.errText))
+				}
 			}
 		}
-		if post.Last != pre.Last && o.Kind == "tally" {
-			fired++
+		if o.Kind == "vote" {
+			run.Count("claim_type", map[bool]string{true: "batch", false: map[bool]string{true: "sale", false: "deposit"}[o.Claim.Sale]}[o.Claim.Batch])
 		}
-		vs := or.step(e, ctx, o, ok, pre, post)
+		c := o.C
+		if global(o) {
+			c = 0
+		}
+		if post[c].Last != pre[c].Last && o.Kind == "tally" {
+			fired++
+			for _, a := range post[c].Atts {
+				if a.Observed && a.Nonce > pre[c].Last && a.Nonce <= post[c].Last {
+					run.Count("applied_type", a.Cl.GetType().String())
+				}
+			}
+		}
+		vs := or.step(e, ctx, run, o, ao.ok, ao.errText, bondedBefore, pre, post)
 		if len(vs) > 0 {
 			for _, v := range vs {
 				run.Violate(v.id, v.what, map[string]any{"history": label, "ops": ops[:i+1]})
@@ -566,6 +996,7 @@ func (e *env) history(run *emit.Run, ops []opT, label string) {
 		pre = post
 	}
 	run.Count("fired_per_history", fmt.Sprint(min(fired, 5)))
+	run.Count("chains_voted_on", fmt.Sprint(len(chainsUsed)))
 	run.Case("C02.CHist "+emit.List(steps), accepted > 0 && rejected > 0 && fired > 0, map[string]any{"label": label, "ops": len(ops)})
 }
 
@@ -581,6 +1012,10 @@ func classify(s string) string {
 		return "tally: already observed"
 	case strings.Contains(s, "roll back Ethereum block height"):
 		return "tally: height rollback"
+	case strings.Contains(s, "timed out"):
+		return "batch claim at or after the batch timeout"
+	case strings.Contains(s, "not in active set"):
+		return "validator not bonded"
 	case strings.Contains(s, "validator"), strings.Contains(s, "orchestrator"), strings.Contains(s, "orchstrator"):
 		return "unknown validator"
 	case strings.Contains(s, "panic"):
@@ -622,9 +1057,56 @@ func genPowers(r *rand.Rand) opT {
 	return opT{Kind: "powers", Pw: pw, Total: total}
 }
 
+// genValset: some validators leave the bonded set (unbonding / unbonded / record removed), some are
+// jailed (a jailed validator is still Bonded until the staking end-blocker runs); usually followed
+// by the powers staking would report (0 for those that left, total without them).
+func genValset(r *rand.Rand, st []int) []opT {
+	status := make([]int, nVals)
+	jailed := make([]bool, nVals)
+	for i := range status {
+		switch x := r.Intn(10); {
+		case x < 6:
+			status[i] = 0
+		case x < 7:
+			status[i] = 1
+		case x < 8:
+			status[i] = 2
+		default:
+			status[i] = 3
+		}
+		jailed[i] = r.Intn(4) == 0
+	}
+	if r.Intn(3) == 0 { // everybody back
+		status = make([]int, nVals)
+	}
+	copy(st, status)
+	ops := []opT{{Kind: "valset", Status: status, Jailed: jailed}}
+	if r.Intn(4) > 0 {
+		p := genPowers(r)
+		var sum int64
+		for i := range p.Pw {
+			if status[i] != 0 {
+				p.Pw[i] = 0
+			}
+			sum += p.Pw[i]
+		}
+		p.Total = sum
+		ops = append(ops, p)
+	}
+	return ops
+}
+
+// per-chain shadow of the generator (only to aim it)
+type shadow struct {
+	next    []uint64
+	cursor  uint64
+	compass int
+	made    []uint64 // batch nonces built on this chain
+}
+
 // claim variants at one nonce: variant 0 is "what happened", the others compete with it.
-func variant(n uint64, k int, compass int) *claimT {
-	c := &claimT{Nonce: n, Height: 100 + 10*n, Tok: true, Amt: int64(1000 + n), Rcv: int(n % nRcv), Compass: compass}
+func variant(r *rand.Rand, sh *shadow, n uint64, k int) *claimT {
+	c := &claimT{Nonce: n, Height: 100 + 10*n, Tok: true, Amt: int64(1000 + n), Rcv: int(n % nRcv), Compass: sh.compass}
 	switch k {
 	case 1:
 		c.Amt += 777
@@ -635,45 +1117,80 @@ func variant(n uint64, k int, compass int) *claimT {
 		c.Height += 5
 	case 4:
 		c.Height = 1 // far below everything observed before
-	case 5:
-		c.Batch = true // executed-batch claim for a batch that does not exist: observed, handler fails
+	case 5, 6: // executed-batch claim: a pending batch of this chain, an unknown one, or another token contract
+		c.Batch, c.Tok, c.Rcv = true, false, 0
 		c.Amt = int64(1 + n%3)
+		if k == 5 && len(sh.made) > 0 { // "what happened": the same batch for every validator
+			c.Amt = int64(sh.made[int(n)%len(sh.made)])
+		} else if len(sh.made) > 0 && r.Intn(3) > 0 {
+			c.Amt = int64(sh.made[r.Intn(len(sh.made))])
+		}
+		c.OtherTk = k == 6 && r.Intn(6) == 0
+	case 7, 8: // light-node sale: right / wrong sale contract, one of three clients
+		c.Sale = true
+		c.Tok = k == 7 || r.Intn(2) == 0
+		c.Rcv = int(n) % nClients
+		if k == 8 {
+			c.Rcv = r.Intn(nClients)
+		}
+		c.Amt = int64(50 + n)
 	}
 	return c
 }
 
+// what the events of a chain "really" are: a mix of the three types, fixed per (chain, nonce)
+func truth(ci int, n uint64) int {
+	switch (n + uint64(ci)) % 5 {
+	case 3:
+		return 5
+	case 4:
+		return 7
+	}
+	return 0
+}
+
 func (e *env) structured(r *rand.Rand, hostile bool) []opT {
 	ops := []opT{genPowers(r)}
-	n := 6 + r.Intn(26)
-	// shadow of what the validators think their next nonce is (only to aim the generator)
-	next := make([]uint64, nVals)
-	for i := range next {
-		next[i] = 1
+	n := 8 + r.Intn(30)
+	// how many chains this history works on
+	active := []int{r.Intn(nChains)}
+	if x := r.Intn(10); x >= 3 {
+		active = r.Perm(nChains)[:2+r.Intn(2)]
 	}
-	cursor := uint64(0)
-	compass := 0
-	if r.Intn(4) == 0 {
-		compass = 1 + r.Intn(2)
-		ops = append(ops, opT{Kind: "activate", ID: compass})
+	sh := make([]*shadow, nChains)
+	for ci := range sh {
+		sh[ci] = &shadow{next: []uint64{1, 1, 1, 1, 1}}
 	}
-	pickVariant := func() int {
-		if r.Intn(100) < 70 {
-			return 0
+	status := make([]int, nVals)
+	for _, ci := range active {
+		if r.Intn(4) == 0 {
+			sh[ci].compass = 1 + r.Intn(2)
+			ops = append(ops, opT{Kind: "activate", C: ci, ID: sh[ci].compass})
 		}
-		return 1 + r.Intn(5)
+		if r.Intn(3) == 0 {
+			ops = append(ops, opT{Kind: "mkbatch", C: ci})
+			sh[ci].made = append(sh[ci].made, uint64(e.countBatches(ops)))
+		}
 	}
 	for len(ops) < n {
+		ci := active[r.Intn(len(active))]
+		s := sh[ci]
 		x := r.Intn(100)
 		switch {
-		case x < 58:
+		case x < 56:
 			v := r.Intn(nVals)
-			nn := next[v]
-			cl := variant(nn, pickVariant(), compass)
+			nn := s.next[v]
+			k := truth(ci, nn)
+			if r.Intn(100) >= 70 {
+				k = 1 + r.Intn(8)
+			}
+			cl := variant(r, s, nn, k)
 			if r.Intn(12) == 0 {
 				cl.Compass = r.Intn(3)
 			}
+			oc := ci
 			if hostile || r.Intn(10) == 0 {
-				switch r.Intn(6) {
+				switch r.Intn(7) {
 				case 0:
 					cl.Nonce = nn + 1
 				case 1:
@@ -685,14 +1202,22 @@ func (e *env) structured(r *rand.Rand, hostile bool) []opT {
 				case 3:
 					v = nVals + r.Intn(3) // not a validator
 				case 4:
-					cl.Nonce = cursor + 1
+					cl.Nonce = s.cursor + 1
+				case 5:
+					oc = r.Intn(nChains) // the same claim sent to another chain
 				default:
 					cl.Nonce = uint64(r.Intn(4))
 				}
 			}
-			ops = append(ops, opT{Kind: "vote", V: v, Claim: cl})
-			if v < nVals && cl.Nonce == nn {
-				next[v] = nn + 1
+			ops = append(ops, opT{Kind: "vote", C: oc, V: v, Claim: cl})
+			if oc != ci {
+				if v < nVals && status[v] == 0 && cl.Nonce == sh[oc].next[v] {
+					sh[oc].next[v]++
+				}
+				break
+			}
+			if v < nVals && cl.Nonce == nn && status[v] == 0 {
+				s.next[v] = nn + 1
 			}
 			// bursts: the other validators follow with the same claim
 			if r.Intn(5) < 2 {
@@ -701,70 +1226,100 @@ func (e *env) structured(r *rand.Rand, hostile bool) []opT {
 					cnt = 1 + r.Intn(nVals)
 				}
 				for _, w := range r.Perm(nVals)[:cnt] {
-					if next[w] == cl.Nonce {
+					if s.next[w] == cl.Nonce {
 						c2 := *cl
-						ops = append(ops, opT{Kind: "vote", V: w, Claim: &c2})
-						next[w]++
+						ops = append(ops, opT{Kind: "vote", C: ci, V: w, Claim: &c2})
+						if status[w] == 0 {
+							s.next[w]++
+						}
 					}
 				}
 			}
-		case x < 76:
-			ops = append(ops, opT{Kind: "tally"})
+		case x < 73:
+			ops = append(ops, opT{Kind: "tally", C: ci})
 			if r.Intn(3) == 0 {
-				ops = append(ops, opT{Kind: "prune"})
+				ops = append(ops, opT{Kind: "prune", C: ci})
 			}
-		case x < 82:
+		case x < 78:
 			ops = append(ops, genPowers(r))
-		case x < 86:
-			ops = append(ops, opT{Kind: "catchup"})
-		case x < 95:
+		case x < 82:
+			ops = append(ops, genValset(r, status)...)
+		case x < 85:
+			ops = append(ops, opT{Kind: "catchup", C: ci})
+		case x < 93:
 			var to uint64
 			switch r.Intn(6) {
 			case 0:
 				to = 0
 			case 1:
-				to = cursor
+				to = s.cursor
 			case 2:
-				if cursor > 0 {
-					to = cursor - 1
+				if s.cursor > 0 {
+					to = s.cursor - 1
 				}
 			case 3:
-				to = cursor + 1 + uint64(r.Intn(3))
+				to = s.cursor + 1 + uint64(r.Intn(3))
 			case 4:
 				to = 1000 + uint64(r.Intn(5))
 			default:
 				to = uint64(r.Intn(4))
 			}
-			cursor = to
-			for i := range next {
-				next[i] = to + 1
+			s.cursor = to
+			for i := range s.next {
+				s.next[i] = to + 1
 			}
-			ops = append(ops, opT{Kind: "override", N: to})
+			ops = append(ops, opT{Kind: "override", C: ci, N: to})
+		case x < 95:
+			s.compass = 1 + r.Intn(2)
+			s.cursor = 0
+			for i := range s.next {
+				s.next[i] = 1
+			}
+			ops = append(ops, opT{Kind: "activate", C: ci, ID: s.compass})
+		case x < 97:
+			ops = append(ops, opT{Kind: "mkbatch", C: ci})
+			s.made = append(s.made, uint64(e.countBatches(ops)))
 		case x < 98:
-			compass = 1 + r.Intn(2)
-			cursor = 0
-			for i := range next {
-				next[i] = 1
+			if len(s.made) > 0 {
+				ops = append(ops, opT{Kind: "dropbatch", C: ci, BN: s.made[r.Intn(len(s.made))]})
+			} else {
+				ops = append(ops, opT{Kind: "dropbatch", C: ci, BN: uint64(1 + r.Intn(3))})
 			}
-			ops = append(ops, opT{Kind: "activate", ID: compass})
+		case x < 99:
+			ops = append(ops, opT{Kind: "regenesis"})
+			for _, t := range sh { // the compass id is not exported
+				t.compass = 0
+			}
 		default:
-			ops = append(ops, opT{Kind: "prune"})
+			ops = append(ops, opT{Kind: "prune", C: ci})
 		}
 		// keep the shadow cursor roughly right: a full round of votes followed by a tally moves it
 		if len(ops) > 0 && ops[len(ops)-1].Kind == "tally" {
-			min := next[0]
-			for _, x := range next {
+			min := s.next[0]
+			for _, x := range s.next {
 				if x < min {
 					min = x
 				}
 			}
-			if min > cursor+1 {
-				cursor = min - 1
+			if min > s.cursor+1 {
+				s.cursor = min - 1
 			}
 		}
 	}
-	ops = append(ops, opT{Kind: "tally"})
+	for _, ci := range active {
+		ops = append(ops, opT{Kind: "tally", C: ci})
+	}
 	return ops
+}
+
+func (e *env) countBatches(ops []opT) int {
+	n := 0
+	for _, o := range ops {
+		if o.Kind == "mkbatch" {
+			n++
+		}
+	}
+	return n
 }
 
 // boundary aims at the threshold itself: the first k voters hold exactly floor(66*T/100) + d of the
@@ -799,28 +1354,81 @@ func (e *env) boundary(r *rand.Rand) []opT {
 		pw[perm[k+i]] = x
 	}
 	total := T
+	ci := r.Intn(nChains)
+	sh := &shadow{}
 	ops := []opT{{Kind: "powers", Pw: pw, Total: total}}
-	cl := variant(1, r.Intn(3), 0)
+	cl := variant(r, sh, 1, r.Intn(3))
 	for i := 0; i < k; i++ {
 		c := *cl
-		ops = append(ops, opT{Kind: "vote", V: perm[i], Claim: &c})
+		ops = append(ops, opT{Kind: "vote", C: ci, V: perm[i], Claim: &c})
 	}
-	ops = append(ops, opT{Kind: "tally"})
+	ops = append(ops, opT{Kind: "tally", C: ci})
 	if r.Intn(3) == 0 { // power moves between vote and tally
-		ops = append(ops, genPowers(r), opT{Kind: "tally"})
+		ops = append(ops, genPowers(r), opT{Kind: "tally", C: ci})
 	}
 	for i := k; i < nVals; i++ {
 		c := *cl
 		if r.Intn(4) == 0 {
-			c = *variant(1, 3, 0)
+			c = *variant(r, sh, 1, 3)
 		}
-		ops = append(ops, opT{Kind: "vote", V: perm[i], Claim: &c}, opT{Kind: "tally"})
+		ops = append(ops, opT{Kind: "vote", C: ci, V: perm[i], Claim: &c}, opT{Kind: "tally", C: ci})
 	}
 	// a second nonce, voted by everybody who can
 	for i := 0; i < nVals; i++ {
-		ops = append(ops, opT{Kind: "vote", V: perm[i], Claim: variant(2, 0, 0)})
+		ops = append(ops, opT{Kind: "vote", C: ci, V: perm[i], Claim: variant(r, sh, 2, 0)})
 	}
-	ops = append(ops, opT{Kind: "tally"})
+	ops = append(ops, opT{Kind: "tally", C: ci})
+	return ops
+}
+
+// stalls aims at the two documented stalls and at the ways out of them.
+func (e *env) stalls(r *rand.Rand) []opT {
+	ci := r.Intn(nChains)
+	sh := &shadow{}
+	ops := []opT{{Kind: "powers", Pw: []int64{1, 1, 1, 1, 1}, Total: 5}}
+	all := func(c *claimT, vs []int) {
+		for _, v := range vs {
+			cc := *c
+			ops = append(ops, opT{Kind: "vote", C: ci, V: v, Claim: &cc})
+		}
+	}
+	k := uint64(1 + r.Intn(3))
+	for n := uint64(1); n <= k; n++ {
+		all(variant(r, sh, n, 0), r.Perm(nVals))
+	}
+	ops = append(ops, opT{Kind: "tally", C: ci})
+	var at uint64
+	if r.Intn(2) == 0 {
+		// (1) override to a lower nonce: the events are re-submitted and land on observed attestations
+		at = uint64(r.Intn(int(k)))
+		ops = append(ops, opT{Kind: "override", C: ci, N: at})
+		p := r.Perm(nVals)
+		nre := r.Intn(3)
+		all(variant(r, sh, at+1, 0), p[:nre])             // the honest re-submission
+		all(variant(r, sh, at+1, 1+r.Intn(3)), p[nre:])   // a competing claim, higher or lower hash, with or without the votes
+	} else {
+		// (2) the next event names a remote height below the last observed one
+		at = k
+		low := variant(r, sh, at+1, 4)
+		p := r.Perm(nVals)
+		nlow := 3 + r.Intn(3)
+		all(low, p[:nlow])
+		all(variant(r, sh, at+1, 1), p[nlow:])
+	}
+	ops = append(ops, opT{Kind: "tally", C: ci}, opT{Kind: "tally", C: ci})
+	if r.Intn(2) == 0 {
+		ops = append(ops, genPowers(r), opT{Kind: "tally", C: ci})
+	}
+	// the way out: governance overrides again
+	to := k
+	if r.Intn(3) == 0 {
+		to = at + 1
+	}
+	ops = append(ops, opT{Kind: "override", C: ci, N: to})
+	nx := variant(r, sh, to+1, 0)
+	nx.Height = 100 + 10*(k+2)
+	all(nx, r.Perm(nVals))
+	ops = append(ops, opT{Kind: "tally", C: ci})
 	return ops
 }
 
@@ -854,13 +1462,14 @@ func loadCorpus(t *testing.T) map[string][]opT {
 
 func TestCorr(t *testing.T) {
 	run := emit.Start("C02", 400)
-	run.Rule("one case = one history on the real skyway keeper (SetupFiveValChain): SetPowers first, then 6-32 operations: " +
-		"SendToPalomaClaim votes (ValidateBasic + msg server in a cache context) by 5 validators for up to 6 competing claims per nonce " +
-		"(other amount/receiver, unregistered token, other height, height below the last observed one, a BatchSendToRemoteClaim for an unknown batch, other compass id), bursts of " +
-		"followers, attestationTally / pruneAttestations (hooks), power changes between vote and tally (equal, 34%, 66/34, 67%, zero powers, " +
-		"non-voting power in the total), UpdateValidatorNoncesToLatest, governance nonce override to 0 / cursor / cursor-1 / higher / >1000, " +
-		"chain activation with a new compass id; ~15% threshold histories (k voters holding exactly floor(66T/100)-1, +0, +1 of T, T from 3 to 10^6); ~15% hostile histories (non-contiguous nonces, nonce 0, unknown orchestrators, re-votes). " +
-		"Every step: full projected store state compared with the model; direct oracle on the real state. " +
+	run.Rule("one case = one history on the real skyway keeper (SetupFiveValChain) with three remote chains (per-chain cursor, validator nonces, compass id, bridge token, sale contract) over one staking module; " +
+		"1-3 chains per history, 8-38 operations: claims of all three types (SendToPalomaClaim / BatchSendToRemoteClaim for real pending batches, unknown batches, another token / LightNodeSaleClaim with the right or a wrong sale contract) " +
+		"through ValidateBasic + their msg server in a cache context, by 5 validators, up to 9 competing variants per nonce (other amount/receiver, unregistered token, other height, height below the last observed one, other compass id, the same claim sent to another chain), bursts of " +
+		"followers, attestationTally / pruneAttestations (hooks), power changes between vote and tally (equal, 34%, 66/34, 67%, zero powers, non-voting power in the total), " +
+		"validator records rewritten in the real staking keeper between vote and tally (Bonded / Unbonding / Unbonded / record removed, jailed flag; powers 0 for those that left), " +
+		"UpdateValidatorNoncesToLatest, governance nonce override to 0 / cursor / cursor-1 / higher / >1000, chain activation with a new compass id, real batches built and cancelled, genesis export + store wipe + import; " +
+		"~12% threshold histories (k voters holding exactly floor(66T/100)-1, +0, +1 of T, T from 3 to 10^6); ~10% stall histories (override to a lower nonce with re-submission and a competing claim; an event whose remote height is below the last observed one; then the override that ends the stall); ~15% hostile histories (non-contiguous nonces, nonce 0, unknown orchestrators, re-votes, claims sent to the wrong chain). " +
+		"Every step: projected stores of the addressed chain compared with the model, the other chains' stores compared with their state before the step on the real side; direct oracle on the real state (incl. stall vs violation). " +
 		"non-trivial = history with an accepted vote, a rejected operation and at least one claim taking effect")
 	search := os.Getenv("VERIF_SEARCH") != ""
 	if search {
@@ -880,9 +1489,12 @@ func TestCorr(t *testing.T) {
 	for run.NCases() < run.N {
 		x := run.Rng.Intn(100)
 		switch {
-		case x < 15 || (search && x < 40):
+		case x < 12 || (search && x < 30):
 			run.Count("kind", "boundary")
 			e.history(run, e.boundary(run.Rng), fmt.Sprintf("seed%d/%d/boundary", run.Seed, i))
+		case x < 22 || (search && x < 45):
+			run.Count("kind", "stall")
+			e.history(run, e.stalls(run.Rng), fmt.Sprintf("seed%d/%d/stall", run.Seed, i))
 		default:
 			hostile := x >= 85
 			run.Count("kind", map[bool]string{true: "hostile", false: "structured"}[hostile])
@@ -890,7 +1502,7 @@ func TestCorr(t *testing.T) {
 		}
 		i++
 	}
-	if err := run.Finish("Skyway.Oracle Corr.C02", "C02.case", "C02.check"); err != nil {
+	if err := run.Finish("Skyway.Oracle Skyway.OracleChains Corr.C02", "C02.case", "C02.check"); err != nil {
 		t.Fatal(err)
 	}
 }
